@@ -218,7 +218,9 @@ def upsert_routes(app, routes, routes_path, route, primary_key):
 
     with open(routes_path, "a") as f:
         f.write(
-            "\n\n".join(
+            # The existing file needn't end in a newline (the one created above doesn't)
+            "\n\n\n"
+            + "\n\n".join(
                 map(
                     to_code,
                     map(
